@@ -4,9 +4,12 @@ import BreezyVerif.Model.C23
 C23 driver.
 
   run <ops>   -> one field per step, joined by `;`:
-                 `<out>|<master revno>:<master tip>|<local revno>:<local tip>|<bound T|F>|<M parents>|<H parents>|<L parents>|<log>`
+                 `<out>|<master revno>:<master tip>|<local revno>:<local tip>|<bound T|F>|<M parents>|<H parents>|<L parents>|<log>|<O tip>|<O parents>|<P tip>`
   ops   = `-` | op joined by `,`;  op = `cM:<rev>` `cH:<rev>` `cL:<rev>` (commit), `lH:<rev>` `lM:<rev>` `lL:<rev>` (commit --local),
-          `uM` `uH` `uL` (update), `p` (pull in H from the master), `b` (bind), `x` (unbind)
+          `uM` `uH` `uL` (update), `p` (pull in H from the master), `b` (bind), `x` (unbind),
+          `cO:<rev>` (commit in the other branch O), `sO` (O pulls the master with overwrite),
+          `qH:<stop|~>:<overwrite T|F>:<local T|F>` / `qL:…` / `qM:…` (pull from O with a stop revision),
+          `shH` / `shL` (push the checkout's branch into the third branch P)
   parents = `-` | revs joined by `+`
   log   = `-` | entries `m:<rev>` / `h:<rev>` joined by `+` : the tip writes of this step, oldest first
 -/
@@ -20,6 +23,20 @@ def parseOp (s : String) : Option Op :=
   | ["p"] => some .pull
   | ["b"] => some .bind
   | ["x"] => some .unbind
+  | ["sO"] => some .syncO
+  | ["shH"] => some (.push .H)
+  | ["shL"] => some (.push .L)
+  | ["cO", r] => if r.isEmpty || r == null then none else some (.commitO r)
+  | [k, r, ow, lo] =>
+    match parseBool ow, parseBool lo with
+    | some ow, some lo =>
+      let stop : Option (Option Rev) := if r == "~" then some none else if r.isEmpty || r == null then none else some (some r)
+      match k, stop with
+      | "qH", some st => some (.pullOther .H st ow lo)
+      | "qL", some st => some (.pullOther .L st ow lo)
+      | "qM", some st => some (.pullOther .M st ow lo)
+      | _, _ => none
+    | _, _ => none
   | [k, r] =>
     if r.isEmpty || r == null then none else
     match k with
@@ -50,7 +67,8 @@ def showStep (old : St) (s : St) (o : Out) : String :=
   let newEntries := (s.log.take (s.log.length - old.log.length)).reverse
   "|".intercalate [showOut o, s!"{revno s.graph s.master}:{s.master}", s!"{revno s.graph s.loc}:{s.loc}",
     showBool s.bound, showRevs s.tM.parents, showRevs s.tH.parents, showRevs s.tL.parents,
-    if newEntries.isEmpty then "-" else "+".intercalate (newEntries.map showEntry)]
+    (if newEntries.isEmpty then "-" else "+".intercalate (newEntries.map showEntry)),
+    s.other, showRevs s.tO.parents, s.third]
 
 def runShow (s : St) : List Op → List String
   | [] => []
